@@ -9,7 +9,7 @@
 #include "vp.h"
 #include "../scalar/ref.h"
 #include "varintAdaptive.h"
-#define VP_ALLOC_SIZES X(0) X(2) X(4) X(6) X(8) X(16) X(24) X(32) X(40) X(48) X(64) X(128) X(sizeof(varintBitmap))
+#define VP_ALLOC_SIZES X(0) X(2) X(4) X(6) X(8) X(16) X(24) X(32) X(40) X(48) X(64) X(128) X(sizeof(varintBitmap)) X(VARINT_BITMAP_BITMAP_SIZE) X(VARINT_BITMAP_DEFAULT_ARRAY_CAPACITY * 2)
 #include "vp_alloc.inc"
 #ifndef N
 #define N 2
@@ -66,9 +66,9 @@ void harness(void) {
         dst[i] = init[i];
     varintAdaptiveMeta m;
 #if MODE == 0
-#if FORCE == 4 /* BITMAP: strictly increasing values below 65536 */
+#if FORCE == 4 /* BITMAP: strictly increasing values below 65536 (VARINT_BITMAP_MAX_VALUE; scaled under the hook) */
     for (unsigned i = 0; i < N; i++)
-        VP_ASSUME(v[i] < 65536);
+        VP_ASSUME(v[i] < VARINT_BITMAP_MAX_VALUE);
     for (unsigned i = 1; i < N; i++)
         VP_ASSUME(v[i - 1] < v[i]);
 #endif
@@ -112,6 +112,15 @@ void harness(void) {
     enc[0] = (uint8_t)want;
     for (unsigned i = 1; i < MAXSIZE; i++)
         enc[i] = dst[i];
+#if (MODE == 0 && FORCE == 4) || (MODE == 1 && defined(SEL) && SEL == 4)
+    /* BITMAP arm, N distinct members: the serialisation is [type ARRAY][cardinality N:u32le][members];
+     * asserted, then handed to the decoder as literals for the same reason as the header byte */
+    VP_ASSERT("P:adaptive.bitmap_payload_header", dst[1] == 0 && dst[2] == N && dst[3] == 0 && dst[4] == 0 && dst[5] == 0);
+    VP_ASSUME(dst[1] == 0 && dst[2] == N && dst[3] == 0 && dst[4] == 0 && dst[5] == 0);
+    enc[1] = 0;
+    enc[2] = N;
+    enc[3] = enc[4] = enc[5] = 0;
+#endif
 #if PROP == 6
     uint64_t out[N];
     varintAdaptiveMeta dm;
